@@ -13,6 +13,7 @@ package main
 //   secret-pad   the length is that of a SECRET literal              -> all outputs identical (C02), == solo (C06)
 //   keep-blanks  another component's line, padding of blanks in KEEP -> output tree-equal to the input (C04)
 //   keep-mixed   command line, KEEP attribute "ab cd …" + secrets    -> KEEP text identical (C04), == solo (C06)
+//   keep-multibyte another component's line, 2-/3-/4-byte characters at every alignment -> tree-equal to the input (C04, C06)
 //   fixed-point  an already redacted command line with KEEP padding  -> output == input bytes (C19)
 //   array-pad    $in array of short strings (output longer than in)  -> == solo (C06); pass 2 == pass 1 (C19)
 
@@ -30,6 +31,18 @@ func slPadBlanks(n int) string { return strings.Repeat(" ", n) }
 func slPadMixed(n int) string  { return strings.Repeat("ab cd  e f ", n/11+1)[:n] }
 func slPadX(n int) string      { return strings.Repeat("xyzzy0123456789", n/15+1)[:n] }
 
+// slPadMultibyte: n bytes of 2-, 3- and 4-byte characters ("é日😀a", 10 bytes per period), shifted by n%10 ASCII
+// bytes: as the length is swept, every alignment of every multi-byte character against every buffer boundary occurs
+func slPadMultibyte(n int) string {
+	lead := n % 10
+	if lead > n {
+		lead = n
+	}
+	rest := n - lead
+	s := strings.Repeat("x", lead) + strings.Repeat("é日😀a", rest/10)
+	return s + strings.Repeat("y", n-len(s))
+}
+
 var slShapes = []slShape{
 	{"secret-pad", func(p int) string {
 		return `{"t":{"$date":"2024-05-01T10:00:00.123+00:00"},"s":"I","c":"COMMAND","id":51803,"ctx":"conn7","msg":"Slow query","attr":{"type":"command","ns":"shop.orders","command":{"find":"orders","filter":{"note":"` + slPadMixed(p) + `","n":{"$gt":41}},"$db":"shop"},"durationMillis":12}}`
@@ -39,6 +52,9 @@ var slShapes = []slShape{
 	}},
 	{"keep-mixed", func(p int) string {
 		return `{"t":{"$date":"2024-05-01T10:00:00.123+00:00"},"s":"I","c":"COMMAND","id":51803,"ctx":"conn7","msg":"Slow query","attr":{"type":"command","ns":"shop.orders","appName":"` + slPadMixed(p) + `","command":{"find":"orders","filter":{"email":"alice@example.com"},"$db":"shop"},"durationMillis":7469113720208097282}}`
+	}},
+	{"keep-multibyte", func(p int) string {
+		return `{"t":{"$date":"2024-05-01T10:00:02.000+00:00"},"s":"I","c":"NETWORK","id":22943,"ctx":"listener","msg":"Connection accepted","attr":{"remote":"192.168.1.5:51234","note":"` + slPadMultibyte(p) + `","connectionId":12}}`
 	}},
 	{"fixed-point", func(p int) string {
 		return `{"t":{"$date":"2024-05-01T10:00:00.123+00:00"},"s":"I","c":"COMMAND","id":51803,"ctx":"conn7","msg":"Slow query","attr":{"type":"command","ns":"shop.orders","appName":"` + slPadX(p) + `","command":{"find":"orders","filter":{"email":"redacted@redacted.com","name":"REDACTED","_id":{"$oid":"000000000000000000000000"}},"$db":"shop"},"durationMillis":12}}`
@@ -165,7 +181,7 @@ func streamLenSweep(c *Ctx, prop string, shapes []string, fl Flags) {
 					jo, e2 := ParseJSON([]byte(mid))
 					bad := e1 != nil || e2 != nil
 					if !bad {
-						if sh.name == "keep-blanks" {
+						if sh.name == "keep-blanks" || sh.name == "keep-multibyte" {
 							bad = !jEqual(ji, jo)
 						} else {
 							a, b := jGet(ji, "attr", "appName"), jGet(jo, "attr", "appName")
